@@ -149,7 +149,7 @@ fn gen_c15(seed: u64, idx: usize, _tier: Tier) -> C15Scenario {
         .collect();
     if rng.chance(1, 4) && !behav.is_empty() {
         let i = rng.below(behav.len());
-        behav[i].code = *rng.pick(&[1, 2, 9]);
+        behav[i].code = *rng.pick(&[1, 2, 9, -9]);
     }
     let total_outs: usize = behav.iter().map(|b| b.outs.len()).sum();
     let mut script = RunScript::simple(opts);
@@ -196,7 +196,20 @@ fn gen_c15(seed: u64, idx: usize, _tier: Tier) -> C15Scenario {
     C15Scenario { run: RunScenario { spec, mode, script, hang_ms: default_hang_ms() }, listener }
 }
 
-fn exec_c15(sc: &C15Scenario, paired: bool) -> Outcome {
+fn exec_c15(sc_in: &C15Scenario, paired: bool) -> Outcome {
+    // paired runs with a failing child: the child stays alive for 120 ms (24 flush intervals of 5 ms)
+    // before it fails, so that whatever its siblings wrote before that moment has long been flushed
+    let mut sc_owned = sc_in.clone();
+    let has_failure = sc_owned.run.script.behav.iter().any(|b| b.code != 0);
+    if paired && has_failure && sc_owned.listener.is_some() {
+        sc_owned.run.script.flush_ms = Some(5);
+        for b in sc_owned.run.script.behav.iter_mut() {
+            if b.code != 0 {
+                b.exit_pause_ms = 120;
+            }
+        }
+    }
+    let sc = &sc_owned;
     let mut world_slot: Option<World> = None;
     let prepared = execute_run_l(&sc.run, sc.listener.as_ref(), &mut world_slot);
     let (ctx, lout) = match prepared {
@@ -283,6 +296,33 @@ fn exec_c15(sc: &C15Scenario, paired: bool) -> Outcome {
             if ctx.trace.code() != ctx2.trace.code() {
                 out.violate("exit_with_listener", "differs_from_run_without_listener", format!("exit {:?} with listener, {:?} without", ctx.trace.code(), ctx2.trace.code()));
             }
+            // stored logs of members that were still running when the failure struck: what they had written
+            // 120 ms earlier must be stored in both runs or in neither
+            if has_failure && out.violations.is_empty() {
+                if let (Some(w2), Some(snap_a), Some(snap_b)) = (slot2.as_ref(), ctx.trace.written_at_first_failure.as_ref(), ctx2.trace.written_at_first_failure.as_ref()) {
+                    let sa = stored_logs(&w, &ctx.trace, &ctx.sc.spec, &ctx.commands).unwrap_or_default();
+                    let sb = stored_logs(w2, &ctx2.trace, &ctx2.sc.spec, &ctx2.commands).unwrap_or_default();
+                    for (hi, h) in ctx.trace.helpers.iter().enumerate() {
+                        let h2 = match ctx2.trace.helpers.iter().position(|x| x.command == h.command && x.target == h.target) {
+                            Some(i) => i,
+                            None => continue,
+                        };
+                        for (fd, file) in [(1usize, "stdout.zst"), (2usize, "stderr.zst")] {
+                            let (pa, pb) = (&snap_a.get(hi).map(|x| x[fd].clone()).unwrap_or_default(), &snap_b.get(h2).map(|x| x[fd].clone()).unwrap_or_default());
+                            if pa.is_empty() || pa != pb {
+                                continue;
+                            }
+                            let k = (file.to_string(), h.target.clone(), h.command.clone());
+                            let has_a = sa.get(&k).map(|s| s.starts_with(pa)).unwrap_or(false);
+                            let has_b = sb.get(&k).map(|s| s.starts_with(pb)).unwrap_or(false);
+                            out.probe("cancelled_or_finished_member_compared_across_listener_configs", 1);
+                            if has_a != has_b {
+                                out.violate("logs_with_listener", "differs_from_run_without_listener", format!("{} of '{}' for '{}': the {} bytes it had written 120 ms before a sibling failed are stored {} a listener and {} one", file, h.command, h.target, pa.len(), if has_a { "with" } else { "NOT with" }, if has_b { "without" } else { "NOT without" }));
+                            }
+                        }
+                    }
+                }
+            }
         }
     }
     let fault_after_delivery = tr.lfaults_fired.iter().any(|f| f.1 > 0) && delivered;
@@ -293,7 +333,7 @@ fn exec_c15(sc: &C15Scenario, paired: bool) -> Outcome {
 }
 
 /// execute_run with a listener: returns the context and the listener's final exit record (if it survived)
-fn execute_run_l(sc: &RunScenario, lcfg: Option<&ListenerCfg>, slot: &mut Option<World>) -> Result<(Box<RunCtx>, Option<ProcExit>), String> {
+pub fn execute_run_l(sc: &RunScenario, lcfg: Option<&ListenerCfg>, slot: &mut Option<World>) -> Result<(Box<RunCtx>, Option<ProcExit>), String> {
     let mut w = World::create(&sc.spec, true).map_err(|e| format!("world: {}", e))?;
     if let Some(s) = sc.script.rand_seed {
         w.set_rand_seed(s);
@@ -434,7 +474,7 @@ fn gen_c20(seed: u64, idx: usize, tier: Tier) -> C20Scenario {
     for i in 0..nt {
         let path = format!("t{:02}", i);
         for c in &cmds {
-            cmd_files.push(CmdFile { target: path.clone(), command: c.clone(), rel: WorldSpec::default_cmd_rel(&path, c), exec: true });
+            cmd_files.push(CmdFile { target: path.clone(), command: c.clone(), rel: WorldSpec::default_cmd_rel(&path, c), exec: true, broken: false });
         }
         targets.push(TargetSpec { path, ..Default::default() });
     }
@@ -455,7 +495,9 @@ fn gen_c20(seed: u64, idx: usize, tier: Tier) -> C20Scenario {
                 let mut s = String::new();
                 for _ in 0..k {
                     seq[fd as usize] += 1;
-                    s.push_str(&format!("{}@{} fd{} seq{} {}\n", cf.command, cf.target, fd, seq[fd as usize], "p".repeat(rng.below(60))));
+                    // padding is valid UTF-8 but not ASCII in every third line (multi-byte characters may straddle any read boundary)
+                    let pad = if rng.chance(1, 3) { "é✓日本語ß".repeat(rng.below(12)) } else { "p".repeat(rng.below(60)) };
+                    s.push_str(&format!("{}@{} fd{} seq{} {}\n", cf.command, cf.target, fd, seq[fd as usize], pad));
                 }
                 OutStep { fd, hex: hex(s.as_bytes()), pause_ms: 0 }
             })
